@@ -17,7 +17,11 @@ open Proto Grid RoundOps
       extra  <lb> <delta> <dec> <grid>          -> <lb'> <grid'> | ERR
       obj    <arr> <delta> <dec:int> <ops>      -> state after the constructor and after every operation, `;`-separated:
                                                    `<lb>|<delta>|<grid>` or ERR (raising operation, object unchanged);
-                                                   ops: `x` extra bins, `l:<x>` lower_bound setter, `g:<arr>` grid setter, `c` continue with a copy
+                                                   ops: `x` extra bins, `l:<x>` lower_bound setter, `g:<arr>` grid setter, `c` continue with a copy,
+                                                   `q:<v>` query -> `Q<lower>,<upper>,<nearest>`
+      iobj   <arr> <ops>                         -> irregular grid object: `S<grid>` after the constructor and after every changing op,
+                                                   `A<answer|ERR>` for a query, ERR for a raising change;
+                                                   ops: `x`, `g:<arr>`, `c`, `n:<v>` nearest, `l:<v>` lower, `u:<v>` upper
       decs   <x>                                -> <n>
       arange <start> <stop> <step>              -> <list>
       frange <start> <stop> <delta>             -> <list>                      (array built by from_range)
@@ -159,6 +163,23 @@ def pOp (s : String) : Option (PGOp Float) :=
     | ["g", arr] => some (.setGrid (pList pF arr))
     | _ => none
 
+/-- regular object histories: an operation or a query `q:<v>` (the three roundings of the current state) -/
+def objRunQ (o : PGObj Float) : List String → List String × List String
+  | [] => ([], [])
+  | t :: rest =>
+    match t.splitOn ":" with
+    | ["q", v] =>
+      let x := pF v
+      let r := objRunQ o rest
+      (s!"Q{fF (roundLower o.G x)},{fF (roundUpper o.G x)},{fF (roundNearest o.G x)}" :: r.1, "obj:query" :: r.2)
+    | _ => match pOp t with
+      | none => objRunQ o rest
+      | some op =>
+        let tag := match op with | .extra => "obj:extra" | .setLowerBound _ => "obj:set-lower-bound" | .setGrid _ => "obj:set-grid" | .copy => "obj:copy"
+        match o.step op with
+        | some o' => let r := objRunQ o' rest; (fObj o' :: r.1, tag :: r.2)
+        | none => let r := objRunQ o rest; ("ERR" :: r.1, (tag ++ "-raises") :: r.2)
+
 def objRun (o : PGObj Float) : List (PGOp Float) → List String × List String
   | [] => ([], [])
   | op :: rest =>
@@ -166,6 +187,39 @@ def objRun (o : PGObj Float) : List (PGOp Float) → List String × List String
     match o.step op with
     | some o' => let r := objRun o' rest; (fObj o' :: r.1, tag :: r.2)
     | none => let r := objRun o rest; ("ERR" :: r.1, (tag ++ "-raises") :: r.2)
+
+def pIOp (s : String) : Option (IGOp Float) :=
+  if s == "x" then some .extra
+  else if s == "c" then some .copy
+  else match s.splitOn ":" with
+    | ["g", arr] => some (.setGrid (pList pF arr))
+    | ["n", v] => some (.nearest (pF v))
+    | ["l", v] => some (.lower (pF v))
+    | ["u", v] => some (.upper (pF v))
+    | _ => none
+
+def fIOut : IGOut Float → String
+  | .state g => "S" ++ fListD fF g
+  | .answer a => "A" ++ fO a
+  | .raised => "ERR"
+
+def iopTag (op : IGOp Float) (out : IGOut Float) : String :=
+  let base := match op with
+    | .extra => "iobj:extra" | .setGrid _ => "iobj:set-grid" | .copy => "iobj:copy"
+    | .nearest _ => "iobj:nearest" | .lower _ => "iobj:lower" | .upper _ => "iobj:upper"
+  match out with
+  | .raised => base ++ "-raises"
+  | .answer none => base ++ "-no-answer"
+  | _ => base
+
+/-- a query after a change of the grid (the pattern a stale derived array would show in) -/
+def queryAfterChange : List (IGOp Float) → Bool → Bool
+  | [], _ => false
+  | op :: rest, changed =>
+    match op with
+    | .extra | .setGrid _ => queryAfterChange rest true
+    | .copy => queryAfterChange rest changed
+    | _ => changed || queryAfterChange rest changed
 
 def pGrids (s : String) : List (PGrid Float) :=
   (semis s).filterMap fun e => match e.splitOn "," with
@@ -208,8 +262,18 @@ def answer (line : String) : Tagged :=
       (match PGObj.new (pList pF arr) (pF d) (pI dec) Gen.C15.floatDDecimals Gen.C15.maxDecimals with
         | none => ("ERR", ["obj:ctor-raises"])
         | some o =>
-          let r := objRun o ((semis ops).filterMap pOp)
+          let r := objRunQ o (semis ops)
           (String.intercalate ";" (fObj o :: r.1), "obj:ctor-ok" :: dedup r.2))
+  | ["iobj", arr, ops] =>
+      (match mkIrr (pList pF arr) with
+        | none => ("ERR", ["iobj:ctor-raises"])
+        | some g =>
+          let o : IGObj Float := ⟨g⟩
+          let opl := (semis ops).filterMap pIOp
+          let outs := o.trace opl
+          (String.intercalate ";" (("S" ++ fListD fF g) :: outs.map fIOut),
+           "iobj:ctor-ok" :: dedup (List.zipWith iopTag opl outs) ++
+             (if queryAfterChange opl false then ["iobj:query-after-change"] else [])))
   | ["decs", x] =>
       let n := decimalsOf (floatToRat (pF x))
       (toString n, [decsTag n])
